@@ -244,21 +244,21 @@ def wrapper_nth_stream(rng, pid):
     return cases
 
 
-def phase_stream(rng, pid):
+def phase_stream(rng, pid, tail=None):
     """two threads over a wrapped iterator of every hint kind, scheduled in four phases T0^a T1^b T0^c T1^d (then round-robin):
     one thread is left at every point of its pull -- also right after it has handed the turn over -- while the other advances
     into the wrapped `next()`"""
     cases = []
     i = 0
     progs = [[["next", "next"], ["next", "next"]], [["next", "hasmore"], ["chunk 2 all", "next"]], [["next", "next"], ["bufnew 2", "bufnext all"]]]
-    for hint in ("inexact", "unbounded", "exact"):
+    for hint in ("inexact", "unbounded", "exact", "upper"):
         for pr in progs:
             for a in range(3, 11):
                 for b in range(3, 10):
                     for cc in (0, 1, 2):
                         for d in (0, 2):
                             c = make_source(rng, "%s-ph%d" % (pid, i), "iter", 4, hint=hint)
-                            c.threads = [list(t) for t in pr]
+                            c.threads = [list(t) + list(tail or []) for t in pr]
                             c.sched = [0] * a + [1] * b + [0] * cc + [1] * d
                             c.owner = "drop"
                             cases.append(c)
@@ -824,7 +824,7 @@ def stream_for0(pid, tier, seed):
     if pid == "C11":
         return defects + pulls_stream(rng, tier, pid, prof=dict(skip=True, query=True, drain=0.3), n_random=2000 if not big else 80000, exh=False) + \
             exhaustive("C11-x2", small_bases(rng, [[["next", "len"], ["chunk 2 all", "hasmore"]], [["hasmore", "next"], ["skip", "len"]]], ["slice", "vec", "range", "iter"]), 2, 8 if not big else 11) + \
-            inflight_stream(rng, pid, tier) + liar_stream(rng, pid) + huge_then_skip_stream(rng, pid)
+            inflight_stream(rng, pid, tier) + liar_stream(rng, pid) + huge_then_skip_stream(rng, pid) + phase_stream(rng, pid, tail=["hasmore", "next", "hasmore"])
     if pid == "C12":
         cases = defects[:0]
         for i in range(1500 if not big else 60000):
